@@ -26,6 +26,9 @@ struct Case {
     /// the edited model (after_edit / revert)
     model_b: Option<Model>,
     edit_desc: String,
+    /// after the preparation run the record is moved out of the output directory and linked back
+    #[serde(default)]
+    linked_record: bool,
     cfg: Cfg,
     setup: Setup,
     p_prep: ProcSpec,
@@ -327,7 +330,7 @@ impl Check for C17 {
     }
     fn cases(&self, tier: Tier) -> u64 {
         match tier {
-            Tier::Quick => 130 + 104,
+            Tier::Quick => 130 + 104 + 39,
             Tier::Thorough => 3200,
         }
     }
@@ -339,12 +342,20 @@ impl Check for C17 {
         setup.out = ["app/src/generated", "app/src/bindings", "app/src/lib/api"][((i / 13) % 3) as usize].to_string();
         // the quick tier ends with the full product setup x obstacle of the (cheap) unusable-path
         // scenarios, all with a non-default output directory
-        let quick_tail: Option<u64> = if tier == Tier::Quick && i >= 130 { Some(i - 130) } else { None };
+        let quick_tail: Option<u64> = if tier == Tier::Quick && (130..234).contains(&i) { Some(i - 130) } else { None };
+        // directed block at the end of both tiers (quick: 39 cases, thorough: the last 200): the
+        // record `.typecache` is a symbolic link to a file kept outside the output directory
+        // when the faulty run starts (after an edit, or after an edit that is then taken back)
+        let linked_record = match tier {
+            Tier::Quick => i >= 234,
+            Tier::Thorough => i >= 3000,
+        };
         if let Some(j) = quick_tail {
             setup = setups[(j % setups.len() as u64) as usize].clone();
             setup.out = ["app/src/bindings", "app/src/lib/api"][(j % 2) as usize].to_string();
         }
         let kind_ix = if quick_tail.is_some() { 3 } else { (i / setups.len() as u64) % 5 };
+        let kind_ix = if linked_record && kind_ix == 3 { 2 } else { kind_ix };
         let kind = match kind_ix {
             0 | 1 => "enumerate",
             2 | 4 => "sequence", // 4: the read-only-directory sequence
@@ -357,6 +368,7 @@ impl Check for C17 {
             3 => "forced",
             _ => "lost_file",
         };
+        let prestate = if linked_record { ["revert", "after_edit", "revert"][(i % 3) as usize] } else { prestate };
         let mut gp = GenParams::swarm(&mut r.split("params"));
         gp.n_files = gp.n_files.min(3);
         gp.n_types = gp.n_types.min(4);
@@ -445,6 +457,7 @@ impl Check for C17 {
             model,
             model_b,
             edit_desc,
+            linked_record,
             cfg,
             setup,
             p_prep,
@@ -482,6 +495,13 @@ impl Check for C17 {
                 co.discard = Some(format!("preparation run: {}", r.res.status.short()));
                 w.destroy();
                 return co;
+            }
+            if c.linked_record {
+                let rec = out.join(".typecache");
+                let store = out.parent().unwrap().join(".typecache-store");
+                if rec.is_file() && std::fs::copy(&rec, &store).is_ok() && std::fs::remove_file(&rec).is_ok() && std::os::unix::fs::symlink(&store, &rec).is_ok() {
+                    co.count("faulty_runs_over_a_record_that_is_a_link_to_a_file_elsewhere", 1);
+                }
             }
             if c.prestate == "lost_file" {
                 let victim = ["types.ts", "commands.ts", "index.ts"][c.p_prep.hash_keys[0] as usize % 3];
